@@ -265,6 +265,51 @@ func (x *mapInst) Observe() Ev {
 			jkeys = []int{-998}
 		}
 	}
+	// beyond the listed properties: GetNode, Node.Size, AVL Node.Next / Node.Prev
+	gn, succ, nsz := [][]any{}, [][]any{}, -1
+	switch t := c.(type) {
+	case *rbt.Tree[int, V]:
+		for _, p := range x.probeK {
+			if n := t.GetNode(p); n != nil {
+				gn = append(gn, []any{p, n.Key, true})
+			} else {
+				gn = append(gn, []any{p, 0, false})
+			}
+		}
+		nsz = t.Root.Size()
+	case *avltree.Tree[int, V]:
+		for _, p := range x.probeK {
+			if n := t.GetNode(p); n != nil {
+				gn = append(gn, []any{p, n.Key, true})
+				row := []any{n.Key, 0, false, 0, false}
+				if nx := n.Next(); nx != nil {
+					row[1], row[2] = nx.Key, true
+				}
+				if pv := n.Prev(); pv != nil {
+					row[3], row[4] = pv.Key, true
+				}
+				succ = append(succ, row)
+			} else {
+				gn = append(gn, []any{p, 0, false})
+			}
+		}
+		nsz = t.Root.Size()
+	case *btree.Tree[int, V]:
+		for _, p := range x.probeK {
+			if n := t.GetNode(p); n != nil {
+				k, ok := 0, false
+				for _, e := range n.Entries {
+					if cmpIntQuiet(x.cmp, e.Key, p) == 0 {
+						k, ok = e.Key, true
+					}
+				}
+				gn = append(gn, []any{p, k, ok})
+			} else {
+				gn = append(gn, []any{p, 0, false})
+			}
+		}
+	}
+	o["gn"], o["succ"], o["nsz"] = gn, succ, nsz
 	o["left"], o["right"], o["floor"], o["ceil"], o["hasnav"], o["height"] = left, right, floor, ceil, hasNav, height
 	o["iter"], o["each"], o["jkeys"], o["hasiter"], o["haseach"], o["hasj"] = iter, each, jkeys, hasIter, hasEach, hasJ
 	if x.shape {
